@@ -107,7 +107,7 @@ def shards(tier):
     # longest shards first (the schedule explorations), then the history fork trees
     cost = {"ak_add_shared": 9, "obj_inplace_shared": 8, "np_sum": 8, "ak_add_vs_Array": 7, "ak_record_vs_array": 7, "ak2_operators": 6}
     out.sort(key=lambda sh: -cost.get(sh["harness"], 5 if sh["fresh"] else 3))
-    return out + hist
+    return out + hist + [{"kind": "raising_ops", "config": c} for c in Gl.CONFIGS]
 
 
 # ======================================================================================== (a) histories
@@ -682,9 +682,75 @@ def run_schedule_forked(res: Result, shard, make, name, bound, gran="line", fres
     res.sample({"kind": f"schedule ({tag} process per schedule)", "harness": name, "preemption_bound": bound, "schedules": stats["executions"], "distinct_outcomes": len(outcomes)})
 
 
+class _Boom(float):
+    """a real number whose every arithmetic operation raises: makes any compute function raise *inside* its dispatch"""
+
+    def _boom(self, *a, **k):
+        raise ZeroDivisionError("boom")
+
+    __add__ = __radd__ = __sub__ = __rsub__ = __mul__ = __rmul__ = __truediv__ = __rtruediv__ = __pow__ = __rpow__ = __neg__ = __pos__ = __abs__ = _boom
+    __floordiv__ = __rfloordiv__ = __mod__ = __rmod__ = __lt__ = __le__ = __gt__ = __ge__ = _boom
+
+
+def run_raising_ops(res: Result, shard, tier):
+    """Every catalogued operation, in every coordinate system, made to raise from inside its compute function (an operand whose
+    arithmetic raises): process-wide state must be exactly as before the call, under the shard's prior configuration."""
+    from .. import alphabet as A
+    from .. import lattice as L
+    from .. import sweep as S
+    from ..catalogue import OPS
+    from ..mplib import OBJ_CLASS
+    from .C03 import scalars_for
+
+    config = shard["config"]
+    Gl.apply_config(config)
+    for op in OPS:
+        sc = scalars_for(op)
+        for dimA in op.dims:
+            for dimB in S.second_dims(op, dimA):
+                a = [v for v in A.vectors(dimA, "quick") if v.has("timelike") or dimA < 4][0]
+                b = None
+                if dimB is not None:
+                    b = (S._beta3_partners("quick") if (op.name in ("boost_beta3", "boostCM_of_beta3") or (op.name in ("boost", "boostCM_of") and dimB == 3)) else
+                         S._booster_p4("quick") if "boost" in op.name else A.partners(dimB, "quick"))[0]
+                for sa, sb in S.signatures(op, dimA, dimB, "diag" if dimB is not None else "all"):
+                    sta = S.stored(a, sa)
+                    stb = S.stored(b, sb) if b is not None else None
+                    if sta is None or (b is not None and stb is None):
+                        continue
+                    flavor = "momentum" if op.momentum_only else "generic"
+                    for which in ((0,) if b is None else (0, 1)):
+                        va = L.build_object(OBJ_CLASS[(flavor, dimA)], sa, tuple((_Boom(float(x)) if which == 0 else float(x)) for x in sta))
+                        others = [] if b is None else [L.build_object(OBJ_CLASS[("generic", dimB)], sb, tuple((_Boom(float(x)) if which == 1 else float(x)) for x in stb))]
+                        res.states += 1
+                        res.transitions += 1
+                        res.evaluations += 1
+                        before = Gl.snapshot()
+                        raised = None
+                        try:
+                            op.call(va, others, sc)
+                        except BaseException as e:  # noqa: BLE001
+                            raised = type(e).__name__
+                        after = Gl.snapshot()
+                        res.traces += 1
+                        if raised is None:
+                            res.count("raising_operand_did_not_make_the_call_raise")
+                            continue
+                        if after != before:
+                            res.violation(f"global_state_after_raise|{op.key}|{config}", f"[config {config}] {op.key} on {L.sysname(sa)}{'/' + L.sysname(sb) if sb else ''} raised {raised} from inside its compute function and left process-wide state changed: {_diff(before, after)}",
+                                          {"kind": "raising_ops", "config": config, "op": op.key})
+                            Gl.apply_config(config)
+                        else:
+                            res.nontrivial += 1
+    res.sample({"kind": "raising_ops", "config": config, "operations": len(OPS)})
+
+
 def run_shard(shard, tier):
     res = Result()
     t0 = time.time()
+    if shard["kind"] == "raising_ops":
+        run_raising_ops(res, shard, tier)
+        return res
     if shard["kind"] == "history":
         run_history_shard(res, shard, tier)
         res.counters["history_shard_wall_s_max"] = time.time() - t0
@@ -700,6 +766,11 @@ def finalize(total, tier, complete):
 
 def replay(case):
     res = Result()
+    if case["kind"] == "raising_ops":
+        data = _in_child(lambda: [[c, v["msg"]] for c, v in _raising_child(case).violation_classes().items()])
+        for c, m in data:
+            res.violation(c, m, case)
+        return res
     if case["kind"] == "history":
         # replay the exact history in a forked child of a freshly configured process
         def whole():
@@ -740,6 +811,12 @@ def replay(case):
     for c, m in data:
         res.violation(c, m, case)
     return res
+
+
+def _raising_child(case):
+    r = Result()
+    run_raising_ops(r, {"config": case["config"]}, "quick")
+    return r
 
 
 def _in_child(fn):
